@@ -109,17 +109,10 @@ fn oracle(src: &str, env: Option<(&str, &str)>, event: &str, metadata: &str) -> 
 /// `"s" * i64::MAX` makes `[u8]::repeat` abort the whole process (allocation failure is not a panic):
 /// such programs are not run (the abort is C04's finding, not a typing matter)
 pub fn risky_alloc(src: &str) -> bool {
+    // coarse on purpose: a huge integer literal anywhere together with a `*` anywhere (the operand may be
+    // a parenthesised expression or a variable holding the literal)
     const BIG: [&str; 2] = ["9223372036854775807", "9007199254740993"];
-    if !BIG.iter().any(|b| src.contains(b)) || !src.contains('*') {
-        return false;
-    }
-    // a `*` one of whose operands is the huge literal or a variable (which may hold it)
-    thread_local! {
-        static RE: regex::Regex = regex::Regex::new(
-            r"\*\s*(9223372036854775807|9007199254740993|[a-z_])|(9223372036854775807|9007199254740993|[a-z_][a-z0-9_]*)\s*\*"
-        ).unwrap();
-    }
-    RE.with(|re| re.is_match(src))
+    BIG.iter().any(|b| src.contains(b)) && src.contains('*')
 }
 
 /// programs of the call-free typing generator, compiled against declared environments, on events
